@@ -14,7 +14,7 @@ pub(crate) type Map = BTreeMap<String, String>;
 const PATHS: [&str; 7] = ["a", "a/b", "a/b/c", "a/c", "a-b", "a.b", "a0"];
 const KINDS_FULL: [&str; 5] = ["f1", "f2", "x1", "l1", "k1"];
 const KINDS_SMALL: [&str; 3] = ["f1", "f2", "x1"];
-const KINDS_TINY: [&str; 2] = ["f1", "x1"];
+const KINDS_MID: [&str; 4] = ["f1", "f2", "x1", "k1"];
 
 fn compatible(paths: &[&str]) -> bool {
     for a in paths {
@@ -313,7 +313,7 @@ pub fn run(run: &'static Run) {
         if quick {
             "all maps with <=1 entry over all five kinds + all maps with 2 entries over f1/f2/x1"
         } else {
-            "all maps with <=2 entries over all five kinds + all maps with 3 entries over f1/x1"
+            "all maps with <=2 entries over all five kinds + all maps with 3 entries over f1/f2/x1/k1"
         }
     ));
     run.assume("git 2.39+ `diff-tree --stdin` as oracle; trees built by `git mktree --batch`, objects packed, gitoxide reads them through gix-odb");
@@ -327,7 +327,7 @@ pub fn run(run: &'static Run) {
         maps_of_size(2, &KINDS_SMALL, &mut maps);
     } else {
         maps_of_size(2, &KINDS_FULL, &mut maps);
-        maps_of_size(3, &KINDS_TINY, &mut maps);
+        maps_of_size(3, &KINDS_MID, &mut maps);
     }
     run.cov("trees", maps.len());
     let fx = Fixture::build(&maps);
